@@ -1665,6 +1665,55 @@ func (w *World) ruleJointDispatch(rule string, d *dkgAnchors) {
 			if seenDispatch[key] > 1 {
 				key += fmt.Sprintf("#%d", seenDispatch[key])
 			}
+			// control dependence without a must-fact (the state is read in one operand of `a && b`, or the skipping branch
+			// `continue`s): a branch in the same function whose condition reads another instance's state and from which the
+			// dispatch is reached on one way out but not on the other (within the current loop iteration)
+			if bad == "" {
+				cf := ins.Parent()
+				hdr := loopHeaderOf(ins.Block())
+				for _, b := range cf.Blocks {
+					ifi, isIf := b.Instrs[len(b.Instrs)-1].(*ssa.If)
+					if !isIf || len(b.Succs) != 2 || b.Succs[0] == b.Succs[1] {
+						continue
+					}
+					var tmp Fact
+					collectDeps(ifi.Cond, &tmp)
+					for _, ld := range tmp.loads {
+						src := map[string]bool{}
+						instIdx(ld.X, map[ssa.Value]bool{}, src)
+						through := false
+						for k := range src {
+							if !strings.HasPrefix(k, "?") {
+								through = true
+							}
+						}
+						if !through {
+							continue
+						}
+						same := len(src) == 1 && len(target) == 1
+						if same {
+							for k := range src {
+								same = target[k]
+							}
+						}
+						if same {
+							continue
+						}
+						reach := func(from *ssa.BasicBlock) bool {
+							if from == ins.Block() {
+								return true
+							}
+							if hdr != nil && from == hdr {
+								return false
+							}
+							return reachAvoid(from, ins.Block(), hdr)
+						}
+						if reach(b.Succs[0]) != reach(b.Succs[1]) && bad == "" {
+							bad = fmt.Sprintf("whether %s is called on instance %v in this iteration depends on the branch at %s, whose condition `%s` reads the state of instance %v", cname, keysOf(target), w.pos(ifi.Pos()), shortCond(render(ifi.Cond)), keysOf(src))
+						}
+					}
+				}
+			}
 			w.check(bad == "", rule, key, ins.Pos(), fmt.Sprintf("dispatch into instance %v depends on no other instance's state", keysOf(target)),
 				bad+": receivers that reached different intermediate conclusions about another dealer would process this event differently (honest disagreement)", factStrings(w.factsAt(ins))...)
 		}, map[*ssa.Function]bool{})
